@@ -330,6 +330,7 @@ def refine(hyps, goal, timeout_ms=8000, seed=0, rounds=12, max_inst=6000, budget
     import itertools
     t0 = time.time()
     ax = axioms()
+    ax_ids = {a_.get_id() for a_ in ax}
     allh = list(ax) + list(hyps)
     ground = [h for h in allh if not is_quantified(h)]
     quant = [h for h in allh if is_quantified(h)]
@@ -343,7 +344,10 @@ def refine(hyps, goal, timeout_ms=8000, seed=0, rounds=12, max_inst=6000, budget
                 qs.append(q)
                 continue
             qs.append(q)     # Int-sorted variables are instantiated over the Int ground terms only: a model found this
-            exact = False    # way may still violate the hypothesis at an index that is not a ground term (finite scope)
+            if q.get_id() not in ax_ids:
+                exact = False    # way may still violate the hypothesis at an index that is not a ground term (finite scope)
+            # (the encoding's own axioms are definitional with the pattern box_int(i) / box_real(r): instantiating them at
+            # every ground box term is complete - a model of the instances extends to a model of the axiom)
             continue
         exact = False
     neg = z3.Not(goal)
